@@ -83,7 +83,7 @@ Account(cre, fin) ==
 (* detach(buf, len): [ok, same, rec, cre, fin, ncopy]                      *)
 (* shared: element-wise copy (fail = index of the failing copy);           *)
 (* private: same storage or moved (truncated elements destroyed)           *)
-Det(h, len, fail) ==
+DetF(h, len, fail, fm) ==
   LET r == rec[h] used == Len(r.data) IN
   IF ~Shared(h)
   THEN IF len <= r.size /\ ~r.imm
@@ -93,10 +93,12 @@ Det(h, len, fail) ==
              cre |-> <<>>, fin |-> Drop(r.data, len), ncopy |-> 0]
   ELSE IF (r.nc /\ used > 0) \/ used > AllocSize(len)
        THEN [ok |-> FALSE, same |-> TRUE, rec |-> r, cre |-> <<>>, fin |-> <<>>, ncopy |-> 0]
-       ELSE LET c == Failed(r.data, fail) IN
+       ELSE LET c == IF fm = 1 /\ fail >= 1 /\ fail <= used THEN FirstN(r.data, fail - 1)   \* fatal: copy stops
+                     ELSE Failed(r.data, fail) IN
             [ok |-> TRUE, same |-> FALSE,
              rec |-> [r EXCEPT !.size = AllocSize(len), !.imm = FALSE, !.data = c],
              cre |-> c, fin |-> <<>>, ncopy |-> used]
+Det(h, len, fail) == DetF(h, len, fail, 0)
 Same(h) == [ok |-> TRUE, same |-> TRUE, rec |-> rec[h], cre |-> <<>>, fin |-> <<>>, ncopy |-> 0]
 
 \* h leaves its buffer; when it was the last holder every element is destroyed
@@ -144,32 +146,42 @@ New(h, d, imm, nc) ==
 
 (* mpt_buffer_set on exclusive storage r: [ok, data, cre, fin]             *)
 (* d0 = offered values (zero = 1: default construct), fail = failing copy  *)
-BSet(r, pos, d0, fail) ==
+\* fm = 1: the default construction that replaces the failed copy fails as well (fatal):
+\* the buffer ends before that slot and everything behind it is destroyed
+BSetF(r, pos, d0, fail, fm) ==
   LET n == Len(d0) used == Len(r.data) end == pos + n
       d == Failed(d0, fail)
+      gap == Zeros(IF pos > used THEN pos - used ELSE 0)
   IN
-  [ok   |-> end <= r.size /\ r.typ = "elem",
-   data |-> Over(r.data, pos, d),
-   cre  |-> Zeros(IF pos > used THEN pos - used ELSE 0) \o d,
-   fin  |-> Part(r.data, pos, end)]
+  IF fm = 1 /\ fail >= 1 /\ fail <= n
+  THEN [ok   |-> end <= r.size /\ r.typ = "elem",
+        data |-> Pad(FirstN(r.data, pos), pos) \o FirstN(d0, fail - 1),
+        cre  |-> gap \o FirstN(d0, fail - 1),
+        fin  |-> Drop(r.data, pos)]
+  ELSE [ok   |-> end <= r.size /\ r.typ = "elem",
+        data |-> Over(r.data, pos, d),
+        cre  |-> gap \o d,
+        fin  |-> Part(r.data, pos, end)]
+
+BSet(r, pos, d0, fail) == BSetF(r, pos, d0, fail, 0)
 
 (* mpt_array_set(arr, traits, len, data | 0, off) *)
-SetTyped(h, d, off, zero, fail) ==
+SetTyped(h, d, off, zero, fail, fm) ==
   LET r == rec[h] n == Len(d) used == Len(r.data)
-      arg == [h |-> h, data |-> d, off |-> off, zero |-> zero, fail |-> fail]
+      arg == [h |-> h, data |-> d, off |-> off, zero |-> zero, fail |-> fail, fm |-> fm]
       pos == IF off < 0 THEN used + off ELSE off
       total == pos + n
   IN
   IF r.typ \notin {"none", "elem"} \/ pos < 0 THEN Refuse("settyped", arg, FALSE)
   ELSE IF r.typ = "none"
-  THEN LET b == BSet(NewRec(<<>>, AllocSize(total), "elem"), pos, d, fail) IN
+  THEN LET b == BSetF(NewRec(<<>>, AllocSize(total), "elem"), pos, d, fail, fm) IN
        /\ Private(h, NewRec(b.data, AllocSize(total), "elem"))
        /\ SetV(h, b.data, "elem") /\ Account(b.cre, <<>>)
        /\ ctr' = ctr + n
        /\ Answer("settyped", arg, "ok", FALSE)
   ELSE LET need == r.size < total \/ r.imm \/ Shared(h)
-           dr == IF need THEN Det(h, Max(used, total), fail) ELSE Same(h)
-           b  == BSet(dr.rec, pos, d, fail - dr.ncopy)
+           dr == IF need THEN DetF(h, Max(used, total), fail, fm) ELSE Same(h)
+           b  == BSetF(dr.rec, pos, d, fail - dr.ncopy, fm)
        IN
        IF ~dr.ok THEN Refuse("settyped", arg, FALSE)
        ELSE /\ Store(h, dr, b.data)
@@ -179,9 +191,9 @@ SetTyped(h, d, off, zero, fail) ==
             /\ Answer("settyped", arg, "ok", FALSE)
 
 (* buffer level calls on exclusively owned, mutable buffers *)
-BufSet(h, pos, d, zero, fail) ==
-  LET r == rec[h] arg == [h |-> h, pos |-> pos, data |-> d, zero |-> zero, fail |-> fail]
-      b == BSet(r, pos, d, fail)
+BufSet(h, pos, d, zero, fail, fm) ==
+  LET r == rec[h] arg == [h |-> h, pos |-> pos, data |-> d, zero |-> zero, fail |-> fail, fm |-> fm]
+      b == BSetF(r, pos, d, fail, fm)
   IN
   /\ r.typ = "elem" /\ ~Shared(h) /\ ~r.imm
   /\ IF ~b.ok THEN Refuse("bufset", arg, FALSE)
@@ -433,12 +445,12 @@ NextC ==
            /\ Prune => ((imm \/ nc) => h = 1)
            /\ (Prune /\ h # 1) => n = 1
            /\ New(h, Fresh(n), imm, nc)
-     \/ \E n \in 0..MaxArg, off \in (-2)..MaxArg, z \in {0, 1} : \E f \in Fails(h, n) :
-           /\ A /\ (z = 1 => n > 0 /\ f = 0)
-           /\ SetTyped(h, Data(n, z), off, z, f)
-     \/ \E pos \in 0..MaxArg, n \in 0..MaxArg, z \in {0, 1} : \E f \in 0..Min(2, n) :
-           /\ A /\ (z = 1 => n > 0 /\ f = 0)
-           /\ BufSet(h, pos, Data(n, z), z, f)
+     \/ \E n \in 0..MaxArg, off \in (-2)..MaxArg, z \in {0, 1}, fm \in {0, 1} : \E f \in Fails(h, n) :
+           /\ A /\ (z = 1 => n > 0 /\ f = 0) /\ (fm = 1 => f > 0)
+           /\ SetTyped(h, Data(n, z), off, z, f, fm)
+     \/ \E pos \in 0..MaxArg, n \in 0..MaxArg, z \in {0, 1}, fm \in {0, 1} : \E f \in 0..Min(2, n) :
+           /\ A /\ (z = 1 => n > 0 /\ f = 0) /\ (fm = 1 => f > 0)
+           /\ BufSet(h, pos, Data(n, z), z, f, fm)
      \/ \E off \in 0..MaxArg, n \in 0..MaxArg : A /\ BufCut(h, off, n)
      \/ \E pos \in 0..MaxArg, n \in 0..MaxArg : A /\ BufInsert(h, pos, Fresh(n))
      \/ \E pos \in 0..MaxArg, n \in 0..MaxArg, f \in Fails(h, 0), v \in {0, 1} :
